@@ -4,7 +4,7 @@ import itertools
 ID = "C18"
 HARNESSES = [dict(name="upgrade", pkg="./pkg/upgrade/", test="TestVerifC18", timeout=900,
                   files=[("pkg/upgrade/zz_verif_c18_test.go", "harness/C18/zz_verif_c18_test.go")])]
-VARIANTS = ["repaired", "defective", "modefix", "curmfix"]
+VARIANTS = ["repaired", "defective"]
 MODEL_NEEDS_IMPL = False
 RULE = ("history cases: an installed tree of 5 artifact paths (absent / regular with modes incl. setuid, setgid, sticky, 0 / "
         "symlink / directory) at version 1, then 1-6 operations: apply of a freshly built signed tarball (1-4 artifacts, "
@@ -12,8 +12,9 @@ RULE = ("history cases: an installed tree of 5 artifact paths (absent / regular 
         "byte/missing/wrong key/garbage; tamper none/digest mismatch/swapped members/../ , deep ../, absolute, symlink, "
         "hardlink members/missing source/tier B/no manifest/duplicate path; pre-hook none/bad digest/missing; "
         "ExpectedFrom; ForceRetry) with faults: any subset of the 16 external-command failures (8 in the apply flow, 8 in "
-        "the rollback flow), the process dying at any of 35 labelled points (every Reporter stage after the journal is "
-        "written, every command, the swap-failure / auto-rollback / health warnings), swap failure at artifact i forced "
+        "the rollback flow), the process dying at any of 36 labelled points (every Reporter stage after the journal is "
+        "written, every command, the swap-failure / auto-rollback / health warnings, and between WriteCurrentManifest "
+        "and the completed-phase write), swap failure at artifact i forced "
         "through the filesystem (one-shot or persistent obstacle at <dir>/.<base>.new), restore failure likewise, five "
         "health outcomes for each daemon start; explicit rollback with the same fault classes; operator edits; obstacle "
         "removal.  A systematic block enumerates every single fault/crash label x {rollback, failing rollback + "
@@ -29,7 +30,7 @@ ASSUMPTIONS = ["rename(2) within a directory is atomic and the journal/snapshot 
 NP = 5
 APPLY_FAIL = [1, 2, 3, 4, 5, 6, 7, 8]
 RB_FAIL = [11, 12, 13, 14, 15, 16, 17, 18]
-CRASH_A = [25, 26, 27, 28, 29, 30, 31, 32, 33, 34, 1, 2, 3, 4, 5, 7, 8, 51, 52, 53]
+CRASH_A = [25, 26, 27, 28, 29, 30, 31, 32, 35, 35, 33, 34, 1, 2, 3, 4, 5, 7, 8, 51, 52, 53]
 CRASH_R = [41, 42, 43, 44, 45, 11, 12, 13, 14, 15, 17, 18]
 MODES = ["0755", "0644", "755", "600", "4755", "e", "0750", "0"]
 FMODES = ["755", "644", "600", "4755", "2755", "1777", "6755", "750", "0", "444"]
@@ -217,6 +218,15 @@ def systematic():
     out.append("h 1 %s ; %s ; %s ; %s" % (fs0, mk_apply(2, a2), mk_rollback(), mk_apply(2, a2, prev="1o")))
     out.append("h 1 %s ; %s ; %s ; %s ; %s" % (fs0, mk_apply(2, a2), mk_apply(3, a3, prev="2o"), mk_rollback(), mk_rollback()))
     out.append("h 1 %s ; %s ; %s ; %s" % (fs0, mk_apply(2, a2, crash=29), mk_apply(2, a2), mk_apply(2, a2, force=1, ha="failed")))
+    # death between WriteCurrentManifest and the "completed" phase write (label 35) and every way out of it
+    out.append("h 1 %s ; %s ; %s ; %s" % (fs0, mk_apply(2, a2, crash=35), mk_rollback(), mk_apply(2, a2, prev="1o")))
+    out.append("h 1 %s ; %s ; %s ; %s" % (fs0, mk_apply(2, a2, crash=35), mk_rollback(), mk_apply(3, a3, prev="2o")))
+    out.append("h 1 %s ; %s ; %s ; %s ; %s" % (fs0, mk_apply(2, a2, crash=35), mk_apply(3, a3, prev="2o"),
+                                               mk_apply(3, a3, prev="2o", force=1), mk_rollback()))
+    out.append("h 1 %s ; %s ; %s ; %s" % (fs0, mk_apply(2, a2, crash=35), mk_apply(3, a3, prev="1o", force=1), mk_rollback()))
+    out.append("h 1 %s ; %s ; %s ; %s ; %s" % (fs0, mk_apply(2, a2, crash=35), mk_rollback(fail=[18]), mk_rollback(crash=43),
+                                               mk_rollback()))
+    out.append("h 1 %s ; %s ; %s ; %s" % (fs0, mk_apply(2, a2, crash=35), mk_apply(3, a3, force=1, ha="failed"), mk_rollback()))
     return out
 
 
@@ -287,6 +297,11 @@ def classify(case, impl, model):
             return "P", "member name accepted by safeTarEntryPath that the model rejects: impl=%r" % impl
         return "G", "safeTarEntryPath differs: impl=%r model=%r" % (impl, model)
     si, sm, ops = segs(impl), segs(model), ops_of(case)
+    if "STALE" in impl and "STALE" not in model:
+        k = [i for i, s in enumerate(si) if "STALE" in s][0]
+        return "P", ("op #%d (%s) is reported as %s but current-manifest does not name the version of the installed "
+                     "artifacts: impl=%r model=%r" % (k, ops[k].split()[0] if k < len(ops) else "?", fields(si[k])["res"],
+                                                      si[k], sm[k] if k < len(sm) else ""))
     if "MIXED" in impl and "MIXED" not in model:
         k = [i for i, s in enumerate(si) if "MIXED" in s][0]
         return "P", ("op #%d (%s) is reported as %s but the artifacts are a mixture / not the pre-upgrade state: impl=%r model=%r"
